@@ -2,6 +2,12 @@
 
 package connectconformance
 
+import (
+	"sort"
+
+	conformancev1 "connectrpc.com/conformance/internal/gen/proto/go/connectrpc/conformance/v1"
+)
+
 // Hook for the verification harnesses in /verif (build tag "verif" only):
 // lets a harness substitute the process started for a given command line, so
 // that run() can be exercised against scripted in-process peers.
@@ -13,4 +19,15 @@ func verifOverride(argv []string) processStarter {
 		return nil
 	}
 	return verifStarterFor(argv)
+}
+
+// verifOrderCases puts the cases of every server batch into a fixed order (by
+// name). Go's map iteration makes that order differ from run to run, which a
+// schedule-replaying harness cannot own otherwise.
+func verifOrderCases(casesByServer map[serverInstance][]*conformancev1.TestCase) {
+	for _, cases := range casesByServer {
+		sort.Slice(cases, func(i, j int) bool {
+			return cases[i].Request.TestName < cases[j].Request.TestName
+		})
+	}
 }
